@@ -15,7 +15,9 @@ import (
 
 	"github.com/iden3/go-iden3-crypto/poseidon"
 	"github.com/iden3/go-merkletree-sql/v2"
+	jsonproc "github.com/iden3/go-schema-processor/v2/json"
 	"github.com/iden3/go-schema-processor/v2/merklize"
+	"github.com/iden3/go-schema-processor/v2/processor"
 	"github.com/iden3/go-schema-processor/v2/verifiable"
 	"github.com/piprate/json-gold/ld"
 
@@ -1248,6 +1250,7 @@ func (d *drv) pathStream() {
 		}
 	}
 	d.slotPathStream()
+	d.serAttrStream()
 	// path strings resolved against the document / a context
 	ctxBytes := []byte(`{"@context":{"@vocab":"urn:v:","id":"@id","type":"@type","T":{"@id":"urn:v:T","@context":{"f":{"@id":"urn:v:f","@type":"http://www.w3.org/2001/XMLSchema#integer"}}}}}`)
 	for _, ps := range []string{"", ".", "..", "s", "s.", ".s", "p.q", "p.q.0", "p.q.-1", "p.q.99999999999999999999", "p..q", " ", "s. ", "\x00", long, "p." + long, strings.Repeat("p.", 2000) + "q", "T.f", "T..f", "f"} {
@@ -1690,4 +1693,84 @@ func (d *drv) memberNameStream() {
 			d.verifyCase(a, verifyInput{Stream: "verify", Arte: a.copy()}, true)
 		}
 	})
+}
+
+// ------------------------------------ (x) hostile iden3_serialization attributes
+// The attribute comes from the schema context (served by the context URL): untrusted.
+func hostileSerAttrs() []string {
+	long := strings.Repeat("slotIndexA=a&", 3) + "slotValueB=" + strings.Repeat("v", 100000)
+	return []string{
+		"iden3:v1:slotIndexA=items.0", "iden3:v1:slotIndexA=items.0&slotValueB=items.1",
+		"iden3:v1:slotIndexA=price&slotValueB", "iden3:v1:slotIndexA", "iden3:v1:slotValueA&slotValueB&slotIndexA&slotIndexB",
+		"iden3:v1:slotIndexA=", "iden3:v1:=items.0", "iden3:v1:=", "iden3:v1:&", "iden3:v1:&&&", "iden3:v1:&&&&",
+		"iden3:v1:slotIndexA=a&&slotIndexB=b", "iden3:v1:a=b&&c=d", "iden3:v1:slotIndexA=a=b", "iden3:v1:slotIndexA==",
+		"iden3:v1:slotIndexA=a&slotIndexB=b&slotValueA=c&slotValueB=d&slotIndexA=e", "iden3:v1:slotIndexA=a&slotIndexA=b",
+		"iden3:v1:slotIndexC=a", "iden3:v1:SLOTINDEXA=a", "iden3:v1: slotIndexA=a", "slotIndexA=items.0", "iden3:v2:slotIndexA=items.0",
+		"iden3:v1:", "iden3:v1", "iden3:", "", " ", "=", "&", "iden3:v1:slotIndexA=items.0&", "iden3:v1:&slotIndexA=items.0",
+		long, "iden3:v1:slotIndexA=\u00e9l\u00e8ve&slotValueB=\u4e2d\u6587", "iden3:v1:slotIndexA=\x00", "iden3:v1:slotIndexA=\xff\xfe",
+		"iden3:v1:slotIndexA=items.0\n&slotIndexB=items.1", "iden3:v1:slotIndexA=items..0", "iden3:v1:slotIndexA=.", "iden3:v1:slotIndexA=items.99999999999",
+	}
+}
+
+func (d *drv) serAttrStream() {
+	subj := d.bundles[0].Cred["credentialSubject"].(map[string]any)["id"]
+	claim, _ := claimFromHex(str(asMap(d.bundles[0].Cred["proof"].([]any)[0]), "coreClaim"))
+	for i, attr := range hostileSerAttrs() {
+		attr := attr
+		shown := attr
+		if len(shown) > 200 {
+			shown = fmt.Sprintf("%s...(%d bytes)", shown[:80], len(attr))
+		}
+		input := map[string]any{"stream": "ser-attr", "index": i, "attr": shown}
+		run := func(name string, f func() error) {
+			o := guard(watchdog, f)
+			d.rep.Evaluations++
+			d.rep.Count("ser-attr:" + name + ":" + o.Class)
+			d.rep.Distinct("ser-attr:" + name + attr)
+			if o.Class == "panic" || o.Class == "hang" {
+				d.fail(name, o, input)
+			}
+		}
+		run("ParseSerializationAttr", func() error { _, err := verifiable.ParseSerializationAttr(attr); return err })
+		inner := map[string]any{"@version": 1.1, "@protected": true, "id": "@id", "type": "@type", "iden3_serialization": attr,
+			"xsd": "http://www.w3.org/2001/XMLSchema#", "items": map[string]any{"@id": "urn:c12:items", "@type": "xsd:integer"},
+			"price": map[string]any{"@id": "urn:c12:price", "@type": "xsd:integer"}}
+		ctxDoc := mustJSON(map[string]any{"@context": []any{map[string]any{"@version": 1.1, "@protected": true, "id": "@id", "type": "@type",
+			"ArrCred": map[string]any{"@id": "urn:c12:ArrCred", "@context": inner}}}})
+		for _, field := range []string{"items.0", "price", ""} {
+			field := field
+			run("json.Parser.GetFieldSlotIndex", func() error { _, err := jsonproc.Parser{}.GetFieldSlotIndex(field, "ArrCred", ctxDoc); return err })
+		}
+		url := fmt.Sprintf("https://c12.invalid/ctx/serattr-%d.jsonld", i)
+		if err := d.loader.Add(url, ctxDoc); err != nil {
+			continue
+		}
+		cred := map[string]any{
+			"id": "urn:uuid:c12-serattr", "@context": []any{"https://www.w3.org/2018/credentials/v1", "https://schema.iden3.io/core/jsonld/iden3proofs.jsonld", url},
+			"type": []any{"VerifiableCredential", "ArrCred"}, "issuanceDate": "2023-12-21T16:35:46Z",
+			"credentialSubject": map[string]any{"id": subj, "type": "ArrCred", "items": []any{11, 22}, "price": 7},
+			"credentialStatus":  map[string]any{"id": "urn:x", "type": statusType, "revocationNonce": 1},
+			"issuer":            d.bundles[0].Cred["issuer"],
+			"credentialSchema":  map[string]any{"id": "https://c12.invalid/schema.json", "type": "JsonSchema2023"},
+		}
+		var vc verifiable.W3CCredential
+		if err := json.Unmarshal(mustJSON(cred), &vc); err != nil {
+			d.rep.Fail("c12-generator", "ser-attr credential does not decode: "+err.Error(), input)
+			return
+		}
+		mzOpts := []merklize.MerklizeOption{merklize.WithDocumentLoader(d.loader)}
+		run("W3CCredential.ToCoreClaim", func() error {
+			_, err := vc.ToCoreClaim(context.Background(), &verifiable.CoreClaimOptions{RevNonce: 1,
+				SubjectPosition: verifiable.CredentialSubjectPositionIndex, MerklizerOpts: mzOpts})
+			return err
+		})
+		run("json.Parser.ParseClaim", func() error {
+			_, err := jsonproc.Parser{}.ParseClaim(context.Background(), vc, &processor.CoreClaimOptions{RevNonce: 1,
+				SubjectPosition: verifiable.CredentialSubjectPositionIndex, MerklizerOpts: mzOpts})
+			return err
+		})
+		if claim != nil {
+			run("VerifyProof(binding)", func() error { return vc.VerifVerifyCoreClaim(context.Background(), claim, mzOpts) })
+		}
+	}
 }
